@@ -527,6 +527,8 @@ def special_records(rng, fmt, n):
                     set_attr(kid, "Parent", [sp] + ([rng.choice(others)] if others and rng.random() < 0.2 else []))
                     if rng.random() < 0.5:
                         kid["attrs"] = [a for a in kid["attrs"] if a[0] != "ID"] or [["Note", ["kid"]]]
+                    while kid["attrs"][0][1] == []:
+                        kid["attrs"].append(kid["attrs"].pop(0))      # a valueless flag never leads the column
                     recs.insert(rng.randrange(0, len(recs) + 1), kid)
     return recs, placed
 
@@ -560,10 +562,6 @@ def gen_collide_case(rng):
     form = rng.choice(["none", "none", "str", "list", "dict-str", "dict-list", "dict-subclass", "callable:name_attr"])
     if fmt == "gtf":
         # the value sits where the default spec of the format looks
-        placed = []
-        for rec in rng.sample(recs, min(2, n)):
-            rec["featuretype"] = "gene"
-            rec["attrs"] = [["gene_id", ["G1"]]] + [a for a in rec["attrs"] if a[0] not in ("gene_id", "transcript_id")]
         form = rng.choice(["none", "dict-str"])
     dup = rng.choice(SPECIALS) if rng.random() < 0.8 else "plain.7"
     key = "ID"
